@@ -124,6 +124,9 @@ def gen_impl_consts():
         return m.group(0) if m else ""
     enters = [len(re.findall(r"self\.enter\(\)\?", fn_body(n))) for n in ("parse_primary", "parse_op", "parse_op_inner")]
     total_enters = len(re.findall(r"self\.enter\(\)\?", parser))
+    # run-time values: exec_list and exec_map hand what they built to `bounded`, which refuses a value nested beyond MAX_DEPTH
+    vb_sites = [len(re.findall(r"Self::bounded\(", fn_body(n))) for n in ("exec_list", "exec_map")]
+    vb_limit = bool(re.search(r"fn\s+bounded\s*\(value:\s*Value\)\s*->\s*Result<Value>\s*\{\s*if\s+value\.nested_beyond\(MAX_DEPTH\)\s*\{\s*return\s+Err\(Error::TooDeep\);", parser))
     def z(v): return "(%s)%%Z" % v
     text = ("(* GENERATED on every run by vlib/build.py from the source text of /repo/src/parser.rs and operator.rs. *)\n"
             "From Coq Require Import ZArith NArith.\nOpen Scope N_scope.\n\n"
@@ -134,7 +137,11 @@ def gen_impl_consts():
             "Definition impl_bp_unregistered : Z * Z := (%s, %s).\n"
             "(* calls of enter() in parse_primary, parse_op, parse_op_inner; and in the whole file *)\n"
             "Definition impl_enter_sites : N * N * N * N := (%s, %s, %s, %s).\n"
-            % ("true" if ok else "false", max_depth, mul, z(right), z(left), z(unreg[0]), z(unreg[1]), enters[0], enters[1], enters[2], total_enters))
+            "(* `Self::bounded(` in exec_list, in exec_map; and whether `bounded` compares the nesting with MAX_DEPTH *)\n"
+            "Definition impl_value_bound_sites : N * N := (%s, %s).\n"
+            "Definition impl_value_bound_is_max_depth : bool := %s.\n"
+            % ("true" if ok else "false", max_depth, mul, z(right), z(left), z(unreg[0]), z(unreg[1]), enters[0], enters[1], enters[2], total_enters,
+               vb_sites[0], vb_sites[1], "true" if vb_limit else "false"))
     return write_if_changed(os.path.join(COQ, "Gen", "ImplConsts.v"), text)
 
 _ESC = {"t": 9, "r": 13, "n": 10, "'": 39, '"': 34, "\\": 92, "0": 0}
